@@ -30,6 +30,7 @@ theorem set_when (i : Inst) (r : Reason) (now : Tick) : (i.set r now).when = som
 theorem set_cancelAt (i : Inst) (r : Reason) (now : Tick) : (i.set r now).cancelAt = i.cancelAt := rfl
 theorem set_abandonAt (i : Inst) (r : Reason) (now : Tick) : (i.set r now).abandonAt = i.abandonAt := rfl
 theorem set_kstarts (i : Inst) (r : Reason) (now : Tick) : (i.set r now).kstarts = i.kstarts := rfl
+theorem set_since (i : Inst) (r : Reason) (now : Tick) : (i.set r now).since = i.since := rfl
 
 theorem set_reasons_ne_nil (i : Inst) (r : Reason) (now : Tick) : (i.set r now).reasons ≠ [] := by
   intro h
@@ -50,7 +51,7 @@ structure InstInv (c : Cfg) (now : Tick) (i : Inst) : Prop where
   cancIff : Reason.cancelled ∈ i.reasons ↔ i.cancelAt.isSome = true
   abanIff : Reason.abandoned ∈ i.reasons ↔ i.abandonAt.isSome = true
 
-theorem InstInv.fresh (c : Cfg) (now : Tick) : InstInv c now Inst.fresh := by
+theorem InstInv.fresh (c : Cfg) (now t : Tick) : InstInv c now (Inst.fresh t) := by
   refine ⟨?_, ?_, ?_, ?_, ?_, ?_, ?_, ?_, ?_⟩ <;> simp [Inst.fresh]
 
 theorem InstInv.mono {c : Cfg} {now now' : Tick} {i : Inst} (h : InstInv c now i) (hle : now ≤ now') :
@@ -286,7 +287,7 @@ inductive StopSpec (c : Cfg) (now : Tick) (r : Reason) (i : Inst) : Out → Prop
       (whenKept : ∀ w, i.when = some w → i'.when = some w)
       (cancKept : ∀ t, i.cancelAt = some t → i'.cancelAt = some t)
       (abanKept : ∀ t, i.abandonAt = some t → i'.abandonAt = some t)
-      (ksKept : i'.kstarts = i.kstarts) : StopSpec c now r i (.alive i' d)
+      (ksKept : i'.kstarts = i.kstarts) (sinceKept : i'.since = i.since) : StopSpec c now r i (.alive i' d)
   | ended (i' : Inst) (mono : ∀ x ∈ i.reasons, x ∈ i'.reasons) : StopSpec c now r i (.ended i')
 
 end Kopf.C09
@@ -320,6 +321,16 @@ theorem applySet_kstarts (act : Act) (i : Inst) (now : Tick) : (applySet act i n
     · simp only [h, if_false]
       cases act.cancel <;> by_cases h2 : r = Reason.abandoned <;> simp [h2, set_kstarts]
 
+theorem applySet_since (act : Act) (i : Inst) (now : Tick) : (applySet act i now).1.since = i.since := by
+  unfold applySet
+  cases act.set with
+  | none => rfl
+  | some r =>
+    by_cases h : r ∈ i.reasons
+    · simp [h]
+    · simp only [h, if_false]
+      cases act.cancel <;> by_cases h2 : r = Reason.abandoned <;> simp [h2, set_since]
+
 theorem applySet_poll (i : Inst) (now : Tick) : (applySet actPoll i now).1 = i := by
   simp [applySet, actPoll]
 
@@ -331,16 +342,16 @@ theorem sure_set {c : Cfg} {now : Tick} {i : Inst} (h : InstInv c now i) {r : Re
     let i1 := if r ∈ i.reasons then i else i.set r now
     InstInv c now i1 ∧ r ∈ i1.reasons ∧ (∀ x ∈ i.reasons, x ∈ i1.reasons) ∧
       (∀ w, i.when = some w → i1.when = some w) ∧ i1.cancelAt = i.cancelAt ∧ i1.abandonAt = i.abandonAt ∧
-      i1.kstarts = i.kstarts := by
+      i1.kstarts = i.kstarts ∧ i1.since = i.since := by
   intro i1
   obtain ⟨h1, h2, _⟩ := primary_ne hr
   by_cases hm : r ∈ i.reasons
   · have : i1 = i := by simp [i1, hm]
     rw [this]
-    exact ⟨h, hm, fun _ hx => hx, fun _ hw => hw, rfl, rfl, rfl⟩
+    exact ⟨h, hm, fun _ hx => hx, fun _ hw => hw, rfl, rfl, rfl, rfl⟩
   · have : i1 = i.set r now := by simp [i1, hm]
     rw [this]
-    refine ⟨h.set_plain r h1 h2 (Or.inl hr), mem_set.mpr (Or.inr rfl), fun x hx => mem_set.mpr (Or.inl hx), ?_, rfl, rfl, rfl⟩
+    refine ⟨h.set_plain r h1 h2 (Or.inl hr), mem_set.mpr (Or.inr rfl), fun x hx => mem_set.mpr (Or.inl hx), ?_, rfl, rfl, rfl, rfl⟩
     intro w hw
     simp [set_when, hw]
 
@@ -351,9 +362,9 @@ theorem stopOne_spec {c : Cfg} {now : Tick} {i : Inst} (h : InstInv c now i) {r 
   · simp only [h0, if_true]
     exact .ended i (fun _ hx => hx)
   · have hd0 : ex.d0 = false := by simpa using h0
-    obtain ⟨hinv1, hask, hmono, hwhen, hc1, ha1, hk1⟩ := sure_set h hr
+    obtain ⟨hinv1, hask, hmono, hwhen, hc1, ha1, hk1, hs1⟩ := sure_set h hr
     have hage := age_of_when h r
-    generalize hi1 : (if r ∈ i.reasons then i else i.set r now) = i1 at hinv1 hask hmono hwhen hc1 ha1 hk1 hage
+    generalize hi1 : (if r ∈ i.reasons then i else i.set r now) = i1 at hinv1 hask hmono hwhen hc1 ha1 hk1 hs1 hage
     by_cases h1 : ex.d1 = true
     · simp only [hd0, h1, if_true, Bool.false_eq_true, if_false]
       exact .ended i1 hmono
@@ -381,13 +392,14 @@ theorem stopOne_spec {c : Cfg} {now : Tick} {i : Inst} (h : InstInv c now i) {r 
             intro w hw; simp [set_when, hw]
         obtain ⟨hinv2, hm2, hw2, hc2, ha2⟩ := hi2
         have hk2 := applySet_kstarts actSignal i1 now
-        generalize (applySet actSignal i1 now).1 = i2 at hinv2 hm2 hw2 hc2 ha2 hk2 ⊢
+        have hs2 := applySet_since actSignal i1 now
+        generalize (applySet actSignal i1 now).1 = i2 at hinv2 hm2 hw2 hc2 ha2 hk2 hs2 ⊢
         by_cases h2 : (actSignal.delayIfAlive && ex.d2) = true
         · simp only [h2, if_true]
           exact .ended i2 (fun x hx => hm2 x (hmono x hx))
         · simp only [h2]
           exact .alive i2 _ hinv2 (hm2 r hask) (fun x hx => hm2 x (hmono x hx)) (fun w hw => hw2 w (hwhen w hw))
-            (fun t ht => by rw [hc2, hc1]; exact ht) (fun t ht => by rw [ha2, ha1]; exact ht) (hk2.trans hk1)
+            (fun t ht => by rw [hc2, hc1]; exact ht) (fun t ht => by rw [ha2, ha1]; exact ht) (hk2.trans hk1) (hs2.trans hs1)
       · -- cancelled
         rw [hs]
         have hageb : ∀ w, i1.when = some w → w + c.b0 ≤ now := by
@@ -415,13 +427,14 @@ theorem stopOne_spec {c : Cfg} {now : Tick} {i : Inst} (h : InstInv c now i) {r 
             · intro t ht; simp [ht]
         obtain ⟨hinv2, hm2, hw2, hc2, ha2⟩ := hi2
         have hk2 := applySet_kstarts actCancel i1 now
-        generalize (applySet actCancel i1 now).1 = i2 at hinv2 hm2 hw2 hc2 ha2 hk2 ⊢
+        have hs2 := applySet_since actCancel i1 now
+        generalize (applySet actCancel i1 now).1 = i2 at hinv2 hm2 hw2 hc2 ha2 hk2 hs2 ⊢
         by_cases h2 : (actCancel.delayIfAlive && ex.d2) = true
         · simp only [h2, if_true]
           exact .ended i2 (fun x hx => hm2 x (hmono x hx))
         · simp only [h2]
           exact .alive i2 _ hinv2 (hm2 r hask) (fun x hx => hm2 x (hmono x hx)) (fun w hw => hw2 w (hwhen w hw))
-            (fun t ht => hc2 t (by rw [hc1]; exact ht)) (fun t ht => by rw [ha2, ha1]; exact ht) (hk2.trans hk1)
+            (fun t ht => hc2 t (by rw [hc1]; exact ht)) (fun t ht => by rw [ha2, ha1]; exact ht) (hk2.trans hk1) (hs2.trans hs1)
       · -- abandoned
         rw [hs]
         have hageb : ∀ w, i1.when = some w → w + c.b0 + c.t0 ≤ now := by
@@ -449,16 +462,17 @@ theorem stopOne_spec {c : Cfg} {now : Tick} {i : Inst} (h : InstInv c now i) {r 
             · intro t ht; simp [ht]
         obtain ⟨hinv2, hm2, hw2, hc2, ha2⟩ := hi2
         have hk2 := applySet_kstarts actAbandon i1 now
-        generalize (applySet actAbandon i1 now).1 = i2 at hinv2 hm2 hw2 hc2 ha2 hk2 ⊢
+        have hs2 := applySet_since actAbandon i1 now
+        generalize (applySet actAbandon i1 now).1 = i2 at hinv2 hm2 hw2 hc2 ha2 hk2 hs2 ⊢
         have h2 : (actAbandon.delayIfAlive && ex.d2) = false := by simp [actAbandon]
         simp only [h2]
         exact .alive i2 _ hinv2 (hm2 r hask) (fun x hx => hm2 x (hmono x hx)) (fun w hw => hw2 w (hwhen w hw))
-          (fun t ht => by rw [hc2, hc1]; exact ht) (fun t ht => ha2 t (by rw [ha1]; exact ht)) (hk2.trans hk1)
+          (fun t ht => by rw [hc2, hc1]; exact ht) (fun t ht => ha2 t (by rw [ha1]; exact ht)) (hk2.trans hk1) (hs2.trans hs1)
       · -- polling
         rw [hs, applySet_poll]
         have h2 : (actPoll.delayIfAlive && ex.d2) = false := by simp [actPoll]
         simp only [h2]
-        exact .alive i1 _ hinv1 hask hmono hwhen (fun t ht => by rw [hc1]; exact ht) (fun t ht => by rw [ha1]; exact ht) hk1
+        exact .alive i1 _ hinv1 hask hmono hwhen (fun t ht => by rw [hc1]; exact ht) (fun t ht => by rw [ha1]; exact ht) hk1 hs1
 
 end Kopf.C09
 
@@ -478,12 +492,14 @@ structure Mono (i i' : Inst) : Prop where
   canc : ∀ t, i.cancelAt = some t → i'.cancelAt = some t
   aban : ∀ t, i.abandonAt = some t → i'.abandonAt = some t
   ks : ∀ st ∈ i.kstarts, st ∈ i'.kstarts
+  since : i'.since = i.since
 
-theorem Mono.refl (i : Inst) : Mono i i := ⟨fun _ h => h, fun _ h => h, fun _ h => h, fun _ h => h, fun _ h => h⟩
+theorem Mono.refl (i : Inst) : Mono i i := ⟨fun _ h => h, fun _ h => h, fun _ h => h, fun _ h => h, fun _ h => h, rfl⟩
 
 theorem Mono.trans {a b d : Inst} (h1 : Mono a b) (h2 : Mono b d) : Mono a d :=
   ⟨fun x h => h2.reasons x (h1.reasons x h), fun w h => h2.when w (h1.when w h),
-   fun t h => h2.canc t (h1.canc t h), fun t h => h2.aban t (h1.aban t h), fun t h => h2.ks t (h1.ks t h)⟩
+   fun t h => h2.canc t (h1.canc t h), fun t h => h2.aban t (h1.aban t h), fun t h => h2.ks t (h1.ks t h),
+   h2.since.trans h1.since⟩
 
 /-- `s'` comes from `s` without a spawn: the instance (if any) evolved or ended. -/
 structure Evolves (s s' : St) : Prop where
@@ -491,19 +507,21 @@ structure Evolves (s s' : St) : Prop where
   spawns : s'.spawns = s.spawns
   known : s'.known = s.known
   foreverMono : s.forever = true → s'.forever = true
-  same : ∀ i', s'.run = some i' → ∃ i, s.run = some i ∧ Mono i i'
+  same : ∀ i', s'.run = some i' → ∃ i, s.run = some i ∧ Mono i i' ∧ i'.kstarts = i.kstarts
   noneStays : s.run = none → s' = s
+  paused : s'.paused = s.paused
+  killerDone : s'.killerDone = s.killerDone
 
 theorem Evolves.refl (s : St) : Evolves s s :=
-  ⟨rfl, rfl, rfl, fun h => h, fun i' h => ⟨i', h, Mono.refl i'⟩, fun _ => rfl⟩
+  ⟨rfl, rfl, rfl, fun h => h, fun i' h => ⟨i', h, Mono.refl i', rfl⟩, fun _ => rfl, rfl, rfl⟩
 
 theorem Evolves.trans {a b d : St} (h1 : Evolves a b) (h2 : Evolves b d) : Evolves a d := by
   refine ⟨h2.now.trans h1.now, h2.spawns.trans h1.spawns, h2.known.trans h1.known,
-    fun h => h2.foreverMono (h1.foreverMono h), ?_, ?_⟩
+    fun h => h2.foreverMono (h1.foreverMono h), ?_, ?_, h2.paused.trans h1.paused, h2.killerDone.trans h1.killerDone⟩
   · intro i' hi'
-    obtain ⟨j, hj, m2⟩ := h2.same i' hi'
-    obtain ⟨i, hi, m1⟩ := h1.same j hj
-    exact ⟨i, hi, m1.trans m2⟩
+    obtain ⟨j, hj, m2, k2⟩ := h2.same i' hi'
+    obtain ⟨i, hi, m1, k1⟩ := h1.same j hj
+    exact ⟨i, hi, m1.trans m2, k2.trans k1⟩
   · intro hn
     have := h1.noneStays hn
     subst this
@@ -518,7 +536,7 @@ theorem endInst_inv {c : Cfg} {s : St} (h : Inv c s) {i : Inst} (hi : s.run = so
   · intro k hk; simp [endInst] at hk
 
 theorem endInst_evolves {s : St} {i : Inst} (_hi : s.run = some i) (j : Inst) : Evolves s (endInst s j) := by
-  refine ⟨rfl, rfl, rfl, ?_, ?_, ?_⟩
+  refine ⟨rfl, rfl, rfl, ?_, ?_, ?_, rfl, rfl⟩
   · intro hf; simp [endInst, hf]
   · intro i' hi'; simp [endInst] at hi'
   · intro hn; rw [hn] at _hi; cases _hi
@@ -537,14 +555,14 @@ theorem stopIf_spec {c : Cfg} {s : St} (h : Inv c s) {r : Reason} (hr : r.primar
       simp only
       generalize stopOne c s.now r i ex = out at hspec
       cases hspec with
-      | alive i' d inv asked mono whenKept cancKept abanKept ksKept =>
+      | alive i' d inv asked mono whenKept cancKept abanKept ksKept sinceKept =>
         simp only [applyOut]
-        refine ⟨⟨?_, ?_, ?_⟩, ⟨rfl, rfl, rfl, fun hf => hf, ?_, ?_⟩, ?_⟩
+        refine ⟨⟨?_, ?_, ?_⟩, ⟨rfl, rfl, rfl, fun hf => hf, ?_, ?_, rfl, rfl⟩, ?_⟩
         · have := h.live; simp [hrun] at this; simp [this]
         · intro hf; have := h.fz hf; rw [hrun] at this; cases this
         · intro k hk; simp at hk; subst hk; exact inv
         · intro k hk; simp at hk; subst hk
-          exact ⟨i, hrun, ⟨mono, whenKept, cancKept, abanKept, fun st hst => by rw [ksKept]; exact hst⟩⟩
+          exact ⟨i, hrun, ⟨mono, whenKept, cancKept, abanKept, fun st hst => by rw [ksKept]; exact hst, sinceKept⟩, ksKept⟩
         · intro hn; rw [hrun] at hn; cases hn
         · intro _ k hk; simp at hk; subst hk; exact asked
       | ended i' mono =>
@@ -556,7 +574,7 @@ theorem spawn_inv {c : Cfg} {s : St} (h : Inv c s) (hrun : s.run = none) (hf : s
   refine ⟨?_, ?_, ?_⟩
   · have := h.live; simp [hrun] at this; simp [spawn, this]
   · intro hf'; simp [spawn, hf] at hf'
-  · intro i hi; simp [spawn] at hi; subst hi; exact InstInv.fresh c _
+  · intro i hi; simp [spawn] at hi; subst hi; exact InstInv.fresh c _ _
 
 /-- What one processing cycle does to this handler id. -/
 theorem cycle_spec {c : Cfg} {s : St} (h : Inv c s) (inp : CycIn) :
@@ -591,7 +609,7 @@ theorem cycle_spec {c : Cfg} {s : St} (h : Inv c s) (inp : CycIn) :
     refine ⟨i1, ev.now.trans e0n, fun hf => ev.foreverMono (e0f ▸ hf), ev.known.trans e0k, ?_, ?_, ?_, ?_, ?_⟩
     · simp [ev.spawns, e0s]
     · intro i i' hi hi'
-      obtain ⟨j, hj, m⟩ := ev.same i' hi'
+      obtain ⟨j, hj, m, _⟩ := ev.same i' hi'
       rw [e0r, hi] at hj; cases hj; exact m
     · intro _ i' hi'; exact asked rfl i' hi'
     · intro hc; cases hc
@@ -616,7 +634,7 @@ theorem cycle_spec {c : Cfg} {s : St} (h : Inv c s) (inp : CycIn) :
       · simp only [hc]; exact h0
     have e1 : s1.now = s0.now ∧ s1.forever = s0.forever ∧ s1.known = s0.known ∧
         s1.spawns = s0.spawns + (if (sel && s0.run.isNone) = true then 1 else 0) ∧
-        (∀ i, s0.run = some i → s1 = s0) ∧ (s0.run = none → sel = true → s1.run = some Inst.fresh) := by
+        (∀ i, s0.run = some i → s1 = s0) ∧ (s0.run = none → sel = true → s1.run = some (Inst.fresh s0.now)) := by
       subst hs1
       by_cases hc : (sel && s0.run.isNone) = true
       · simp only [hc, if_true]
@@ -646,16 +664,95 @@ theorem cycle_spec {c : Cfg} {s : St} (h : Inv c s) (inp : CycIn) :
       rw [← hsel']
       cases inp.matching <;> cases s.forever <;> cases s.run <;> simp
     · intro i i' hi hi'
-      obtain ⟨j, hj, m⟩ := ev.same i' hi'
+      obtain ⟨j, hj, m, _⟩ := ev.same i' hi'
       have : s1 = s0 := e1same i (e0r ▸ hi)
       rw [this, e0r, hi] at hj; cases hj; exact m
     · intro hc; cases hc
     · intro _ hns i' hi'
       have hsf : sel = false := by rw [← hsel']; exact hns
-      obtain ⟨j, hj, m⟩ := ev3.same i' hi'
+      obtain ⟨j, hj, m, _⟩ := ev3.same i' hi'
       exact m.reasons _ (asked2 (by simp [hsf]) j hj)
     · intro _ hp i' hi'
       exact asked3 hp i' hi'
+
+/-- What a cycle leaves alone: the pause / exit state, the killer coroutines registered in a surviving
+    instance; and a newly spawned instance is registered as running since now, with no coroutine. -/
+theorem cycle_frame {c : Cfg} {s : St} (h : Inv c s) (inp : CycIn) :
+    let s' := (cycle c inp s).1
+    s'.paused = s.paused ∧ s'.killerDone = s.killerDone ∧
+    (∀ i i', s.run = some i → s'.run = some i' → i'.kstarts = i.kstarts) ∧
+    (s.run = none → ∀ i', s'.run = some i' → i'.since = s.now ∧ i'.kstarts = []) := by
+  intro s'
+  have hk : ∀ (b : Bool), Inv c (if b then { s with known := false } else s) := by
+    intro b; cases b
+    · exact h
+    · exact ⟨h.live, h.fz, h.inst⟩
+  generalize hs0 : (if inp.deleted = true then { s with known := false } else s) = s0
+  have h0 : Inv c s0 := hs0 ▸ hk inp.deleted
+  have e0 : s0.now = s.now ∧ s0.run = s.run ∧ s0.paused = s.paused ∧ s0.killerDone = s.killerDone := by
+    subst hs0; cases inp.deleted <;> simp
+  obtain ⟨e0n, e0r, e0p, e0d⟩ := e0
+  have hs' : s' = (cycle c inp s).1 := rfl
+  unfold cycle at hs'
+  simp only [hs0] at hs'
+  cases hm : inp.marked with
+  | true =>
+    simp only [hm, if_true] at hs'
+    obtain ⟨_, ev, _⟩ := stopIf_spec h0 (r := .deleted) rfl true inp.ex1
+    rw [← hs'] at ev
+    refine ⟨ev.paused.trans e0p, ev.killerDone.trans e0d, ?_, ?_⟩
+    · intro i i' hi hi'
+      obtain ⟨j, hj, _, k⟩ := ev.same i' hi'
+      rw [e0r, hi] at hj; cases hj; exact k
+    · intro hn i' hi'
+      obtain ⟨j, hj, _, _⟩ := ev.same i' hi'
+      rw [e0r, hn] at hj; cases hj
+  | false =>
+    simp only [hm, Bool.false_eq_true, if_false] at hs'
+    generalize hsel : (inp.matching && !s0.forever) = sel at hs'
+    generalize hs1 : (if (sel && s0.run.isNone) = true then spawn s0 else s0) = s1 at hs'
+    have h1 : Inv c s1 := by
+      subst hs1
+      by_cases hc : (sel && s0.run.isNone) = true
+      · simp only [hc, if_true]
+        simp only [Bool.and_eq_true, Option.isNone_iff_eq_none] at hc
+        have hff : s0.forever = false := by
+          have := hc.1
+          rw [← hsel] at this
+          simp only [Bool.and_eq_true, Bool.not_eq_true'] at this
+          exact this.2
+        exact spawn_inv h0 hc.2 hff
+      · simp only [hc]; exact h0
+    have e1 : s1.paused = s0.paused ∧ s1.killerDone = s0.killerDone ∧ (∀ i, s0.run = some i → s1 = s0) ∧
+        (s0.run = none → s1.run = none ∨ s1.run = some (Inst.fresh s0.now)) := by
+      subst hs1
+      by_cases hc : (sel && s0.run.isNone) = true
+      · simp only [hc, if_true]
+        refine ⟨rfl, rfl, ?_, fun _ => Or.inr rfl⟩
+        intro i hi; simp [hi] at hc
+      · simp only [hc]
+        exact ⟨rfl, rfl, fun _ _ => rfl, fun hn => Or.inl hn⟩
+    obtain ⟨e1p, e1d, e1same, e1fresh⟩ := e1
+    obtain ⟨h2, ev2, _⟩ := stopIf_spec h1 (r := .mismatch) rfl (!sel) inp.ex1
+    generalize hs2 : stopIf c s1 (!sel) .mismatch inp.ex1 = p2 at hs' h2 ev2
+    obtain ⟨s2, dm⟩ := p2
+    obtain ⟨_, ev3, _⟩ := stopIf_spec h2 (r := .pausing) rfl inp.paused inp.ex2
+    generalize hs3 : stopIf c s2 inp.paused .pausing inp.ex2 = p3 at hs' ev3
+    obtain ⟨s3, dp⟩ := p3
+    simp only at hs' ev2 ev3
+    subst hs'
+    have ev := ev2.trans ev3
+    refine ⟨(ev.paused.trans e1p).trans e0p, (ev.killerDone.trans e1d).trans e0d, ?_, ?_⟩
+    · intro i i' hi hi'
+      obtain ⟨j, hj, _, k⟩ := ev.same i' hi'
+      have : s1 = s0 := e1same i (e0r ▸ hi)
+      rw [this, e0r, hi] at hj; cases hj; exact k
+    · intro hn i' hi'
+      obtain ⟨j, hj, m, k⟩ := ev.same i' hi'
+      rcases e1fresh (e0r ▸ hn) with h1n | h1f
+      · rw [h1n] at hj; cases hj
+      · rw [h1f] at hj; cases hj
+        exact ⟨by rw [m.since]; simp [Inst.fresh, e0n], by rw [k]; rfl⟩
 
 end Kopf.C09
 
@@ -668,111 +765,186 @@ theorem init_inv (c : Cfg) (t0 : Tick) : Inv c (St.init t0) := by
   · intro h; simp [St.init] at h
   · intro i h; simp [St.init] at h
 
+/-! ### What each label does (inversion of `step`) -/
+
+/-- labels that touch neither the instance nor the memory: time, the pause toggle, the killer leaving -/
+structure Frame (s s' : St) : Prop where
+  run : s'.run = s.run
+  forever : s'.forever = s.forever
+  known : s'.known = s.known
+  live : s'.live = s.live
+  spawns : s'.spawns = s.spawns
+  now : s.now ≤ s'.now
+
+theorem step_tick {c : Cfg} {s s' : St} {d : Nat} (hs : step c s (.tick d) = some s') :
+    s' = { s with now := s.now + d } ∧ tickOk c s d = true := by
+  simp only [step] at hs
+  split at hs
+  · rename_i hok; cases hs; exact ⟨rfl, hok⟩
+  · cases hs
+
+theorem step_pause {c : Cfg} {s s' : St} (hs : step c s .pause = some s') :
+    s' = { s with paused := some s.now } ∧ s.paused = none := by
+  simp only [step] at hs
+  split at hs
+  · rename_i hok; cases hs
+    simp only [Bool.and_eq_true, Option.isNone_iff_eq_none] at hok
+    exact ⟨rfl, hok.1⟩
+  · cases hs
+
+theorem step_resume {c : Cfg} {s s' : St} (hs : step c s .resume = some s') : s' = { s with paused := none } := by
+  simp only [step] at hs
+  split at hs
+  · cases hs; rfl
+  · cases hs
+
+theorem step_kFinal {c : Cfg} {s s' : St} (hs : step c s .kFinal = some s') : s' = { s with killerDone := true } := by
+  simp only [step, Option.some.injEq] at hs; exact hs.symm
+
+theorem step_cycle {c : Cfg} {s s' : St} {inp : CycIn} (hs : step c s (.cycle inp) = some s') :
+    s' = (cycle c inp s).1 ∧ s.known = true := by
+  simp only [step] at hs
+  split at hs
+  · rename_i hk; cases hs; exact ⟨rfl, hk⟩
+  · cases hs
+
+theorem step_exit {c : Cfg} {s s' : St} (hs : step c s .exit = some s') : ∃ i, s.run = some i ∧ s' = endInst s i := by
+  simp only [step] at hs
+  cases hrun : s.run with
+  | none => rw [hrun] at hs; cases hs
+  | some i => rw [hrun] at hs; cases hs; exact ⟨i, rfl, rfl⟩
+
+theorem step_kBegin {c : Cfg} {s s' : St} {r : Reason} (hs : step c s (.kBegin r) = some s') :
+    ∃ i, s.run = some i ∧ s.known = true ∧ s.killerDone = false ∧ (r = .pausing ∨ r = .exiting) ∧
+      (r = .pausing → ∃ p, s.paused = some p ∧ isRound p s.now = true) ∧
+      s' = { s with run := some { i.set r s.now with kstarts := s.now :: i.kstarts } } := by
+  simp only [step] at hs
+  cases hrun : s.run with
+  | none => rw [hrun] at hs; cases hs
+  | some i =>
+    rw [hrun] at hs
+    simp only at hs
+    split at hs
+    · rename_i hc
+      cases hs
+      simp only [Bool.and_eq_true, Bool.or_eq_true, beq_iff_eq, Bool.not_eq_true'] at hc
+      obtain ⟨⟨hk, hd⟩, hr⟩ := hc
+      refine ⟨i, rfl, hk, hd, ?_, ?_, rfl⟩
+      · rcases hr with ⟨h1, _⟩ | h1
+        · exact Or.inl h1
+        · exact Or.inr h1
+      · intro hp
+        rcases hr with ⟨_, h2⟩ | h1
+        · cases hpz : s.paused with
+          | none => rw [hpz] at h2; cases h2
+          | some p => rw [hpz] at h2; exact ⟨p, rfl, h2⟩
+        · rw [hp] at h1; cases h1
+    · cases hs
+
+theorem step_kSignal {c : Cfg} {s s' : St} {st : Tick} (hs : step c s (.kSignal st) = some s') :
+    ∃ i, s.run = some i ∧ st ∈ i.kstarts ∧ s' = { s with run := some (i.set .signalled s.now) } := by
+  simp only [step] at hs
+  cases hrun : s.run with
+  | none => rw [hrun] at hs; cases hs
+  | some i =>
+    rw [hrun] at hs; simp only at hs
+    split at hs
+    · rename_i hc; cases hs; exact ⟨i, rfl, hc.1, rfl⟩
+    · cases hs
+
+theorem step_kCancel {c : Cfg} {s s' : St} {st : Tick} (hs : step c s (.kCancel st) = some s') :
+    ∃ i, s.run = some i ∧ st ∈ i.kstarts ∧ c.timeout.isSome = true ∧ st + c.b0 ≤ s.now ∧
+      s' = { s with run := some { i.set .cancelled s.now with cancelAt := some (i.cancelAt.getD s.now) } } := by
+  simp only [step] at hs
+  cases hrun : s.run with
+  | none => rw [hrun] at hs; cases hs
+  | some i =>
+    rw [hrun] at hs; simp only at hs
+    split at hs
+    · rename_i hc; cases hs; exact ⟨i, rfl, hc.1, hc.2.1, hc.2.2, rfl⟩
+    · cases hs
+
+theorem step_kAbandon {c : Cfg} {s s' : St} {st : Tick} (hs : step c s (.kAbandon st) = some s') :
+    ∃ i, s.run = some i ∧ st ∈ i.kstarts ∧ st + c.b0 + c.t0 ≤ s.now ∧
+      s' = { s with run := some { i.set .abandoned s.now with abandonAt := some (i.abandonAt.getD s.now) } } := by
+  simp only [step] at hs
+  cases hrun : s.run with
+  | none => rw [hrun] at hs; cases hs
+  | some i =>
+    rw [hrun] at hs; simp only at hs
+    split at hs
+    · rename_i hc; cases hs; exact ⟨i, rfl, hc.1, hc.2, rfl⟩
+    · cases hs
+
+/-- the four frame labels -/
+theorem step_frame {c : Cfg} {s s' : St} (l : Label) (hs : step c s l = some s')
+    (hl : (∃ d, l = .tick d) ∨ l = .pause ∨ l = .resume ∨ l = .kFinal) : Frame s s' := by
+  rcases hl with ⟨d, rfl⟩ | rfl | rfl | rfl
+  · obtain ⟨h1, _⟩ := step_tick hs; subst h1
+    exact ⟨rfl, rfl, rfl, rfl, rfl, Int.le_add_of_nonneg_right (Int.natCast_nonneg d)⟩
+  · obtain ⟨h1, _⟩ := step_pause hs; subst h1; exact ⟨rfl, rfl, rfl, rfl, rfl, Int.le_refl _⟩
+  · have h1 := step_resume hs; subst h1; exact ⟨rfl, rfl, rfl, rfl, rfl, Int.le_refl _⟩
+  · have h1 := step_kFinal hs; subst h1; exact ⟨rfl, rfl, rfl, rfl, rfl, Int.le_refl _⟩
+
+theorem frame_inv {c : Cfg} {s s' : St} (h : Inv c s) (f : Frame s s') : Inv c s' := by
+  refine ⟨?_, ?_, ?_⟩
+  · rw [f.live, f.run]; exact h.live
+  · intro hf; rw [f.run]; exact h.fz (f.forever ▸ hf)
+  · intro i hi; rw [f.run] at hi; exact (h.inst i hi).mono f.now
+
+/-- an update of the running instance that keeps the invariant keeps the state invariant -/
+theorem inst_update_inv {c : Cfg} {s : St} (h : Inv c s) {i j : Inst} (hi : s.run = some i)
+    (hj : InstInv c s.now j) : Inv c { s with run := some j } := by
+  refine ⟨?_, ?_, ?_⟩
+  · have := h.live; simp [hi] at this; simp [this]
+  · intro hf; have := h.fz hf; rw [hi] at this; cases this
+  · intro k hk; simp at hk; subst hk; exact hj
+
+/-! ### Every label keeps the invariant -/
+
 theorem step_inv {c : Cfg} {s s' : St} (h : Inv c s) (l : Label) (hs : step c s l = some s') : Inv c s' := by
   cases l with
-  | tick d =>
-    simp only [step, Option.some.injEq] at hs
-    subst hs
-    refine ⟨h.live, h.fz, ?_⟩
-    intro i hi
-    exact (h.inst i hi).mono (Int.le_add_of_nonneg_right (Int.natCast_nonneg d))
-  | cycle inp =>
-    simp only [step] at hs
-    split at hs
-    · cases hs; exact (cycle_spec h inp).1
-    · cases hs
-  | exit =>
-    simp only [step] at hs
-    cases hrun : s.run with
-    | none => rw [hrun] at hs; cases hs
-    | some i => rw [hrun] at hs; cases hs; exact endInst_inv h hrun i
+  | tick d => exact frame_inv h (step_frame _ hs (Or.inl ⟨d, rfl⟩))
+  | pause => exact frame_inv h (step_frame _ hs (Or.inr (Or.inl rfl)))
+  | resume => exact frame_inv h (step_frame _ hs (Or.inr (Or.inr (Or.inl rfl))))
+  | kFinal => exact frame_inv h (step_frame _ hs (Or.inr (Or.inr (Or.inr rfl))))
+  | cycle inp => obtain ⟨h1, _⟩ := step_cycle hs; subst h1; exact (cycle_spec h inp).1
+  | exit => obtain ⟨i, hi, h1⟩ := step_exit hs; subst h1; exact endInst_inv h hi i
   | kBegin r =>
-    simp only [step] at hs
-    cases hrun : s.run with
-    | none => rw [hrun] at hs; cases hs
-    | some i =>
-      rw [hrun] at hs
-      simp only at hs
-      split at hs
-      · rename_i hc
-        cases hs
-        have hr : r.primary = true := by
-          simp only [Bool.and_eq_true, Bool.or_eq_true, beq_iff_eq] at hc
-          rcases hc.2 with h1 | h1 <;> subst h1 <;> rfl
-        refine ⟨?_, ?_, ?_⟩
-        · have := h.live; simp [hrun] at this; simp [this]
-        · intro hf; have := h.fz hf; rw [hrun] at this; cases this
-        · intro k hk; simp at hk; subst hk
-          exact (h.inst i hrun).push_kstart r hr
-      · cases hs
+    obtain ⟨i, hi, _, _, hr, _, h1⟩ := step_kBegin hs
+    subst h1
+    have hp : r.primary = true := by rcases hr with h1 | h1 <;> subst h1 <;> rfl
+    exact inst_update_inv h hi ((h.inst i hi).push_kstart r hp)
   | kSignal st =>
-    simp only [step] at hs
-    cases hrun : s.run with
-    | none => rw [hrun] at hs; cases hs
-    | some i =>
-      rw [hrun] at hs
-      simp only at hs
-      split at hs
-      · rename_i hc
-        cases hs
-        have hi := h.inst i hrun
-        obtain ⟨w, hw, _, _⟩ := hi.kst st hc.1
-        have hne : i.reasons ≠ [] := hi.unflagged (by simp [hw])
-        refine ⟨?_, ?_, ?_⟩
-        · have := h.live; simp [hrun] at this; simp [this]
-        · intro hf; have := h.fz hf; rw [hrun] at this; cases this
-        · intro k hk; simp at hk; subst hk
-          exact hi.set_plain _ (by decide) (by decide) (Or.inr (hi.prim hne))
-      · cases hs
+    obtain ⟨i, hi, hst, h1⟩ := step_kSignal hs
+    subst h1
+    have hii := h.inst i hi
+    obtain ⟨w, hw, _, _⟩ := hii.kst st hst
+    have hne : i.reasons ≠ [] := hii.unflagged (by simp [hw])
+    exact inst_update_inv h hi (hii.set_plain _ (by decide) (by decide) (Or.inr (hii.prim hne)))
   | kCancel st =>
-    simp only [step] at hs
-    cases hrun : s.run with
-    | none => rw [hrun] at hs; cases hs
-    | some i =>
-      rw [hrun] at hs
-      simp only at hs
-      split at hs
-      · rename_i hc
-        cases hs
-        have hi := h.inst i hrun
-        obtain ⟨w, hw, hle, _⟩ := hi.kst st hc.1
-        have hne : i.reasons ≠ [] := hi.unflagged (by simp [hw])
-        refine ⟨?_, ?_, ?_⟩
-        · have := h.live; simp [hrun] at this; simp [this]
-        · intro hf; have := h.fz hf; rw [hrun] at this; cases this
-        · intro k hk; simp at hk; subst hk
-          refine hi.set_cancelled (hi.prim hne) ?_
-          intro w' hw'
-          rw [hw] at hw'; cases hw'
-          have := hc.2.2
-          generalize c.b0 = bb at *
-          tick_omega
-      · cases hs
+    obtain ⟨i, hi, hst, _, hle, h1⟩ := step_kCancel hs
+    subst h1
+    have hii := h.inst i hi
+    obtain ⟨w, hw, hws, _⟩ := hii.kst st hst
+    have hne : i.reasons ≠ [] := hii.unflagged (by simp [hw])
+    refine inst_update_inv h hi (hii.set_cancelled (hii.prim hne) ?_)
+    intro w' hw'
+    rw [hw] at hw'; cases hw'
+    generalize c.b0 = bb at *
+    tick_omega
   | kAbandon st =>
-    simp only [step] at hs
-    cases hrun : s.run with
-    | none => rw [hrun] at hs; cases hs
-    | some i =>
-      rw [hrun] at hs
-      simp only at hs
-      split at hs
-      · rename_i hc
-        cases hs
-        have hi := h.inst i hrun
-        obtain ⟨w, hw, hle, _⟩ := hi.kst st hc.1
-        have hne : i.reasons ≠ [] := hi.unflagged (by simp [hw])
-        refine ⟨?_, ?_, ?_⟩
-        · have := h.live; simp [hrun] at this; simp [this]
-        · intro hf; have := h.fz hf; rw [hrun] at this; cases this
-        · intro k hk; simp at hk; subst hk
-          refine hi.set_abandoned (hi.prim hne) ?_
-          intro w' hw'
-          rw [hw] at hw'; cases hw'
-          have := hc.2
-          generalize c.b0 = bb at *
-          generalize c.t0 = tt at *
-          tick_omega
-      · cases hs
+    obtain ⟨i, hi, hst, hle, h1⟩ := step_kAbandon hs
+    subst h1
+    have hii := h.inst i hi
+    obtain ⟨w, hw, hws, _⟩ := hii.kst st hst
+    have hne : i.reasons ≠ [] := hii.unflagged (by simp [hw])
+    refine inst_update_inv h hi (hii.set_abandoned (hii.prim hne) ?_)
+    intro w' hw'
+    rw [hw] at hw'; cases hw'
+    generalize c.b0 = bb at *
+    generalize c.t0 = tt at *
+    tick_omega
 
 theorem runs_inv {c : Cfg} : ∀ (ls : List Label) {s s' : St}, Inv c s → runs c s ls = some s' → Inv c s'
   | [], s, s', h, hr => by simp only [runs, Option.some.injEq] at hr; subst hr; exact h
@@ -803,54 +975,42 @@ theorem reach_step {c : Cfg} {s s' : St} (h : Reach c s) (l : Label) (hs : step 
   rw [runs_append, hr]
   simp [runs, hs]
 
-end Kopf.C09
-
-namespace Kopf.C09
-
 /-! ### Per-label facts used by the property theorems -/
 
 theorem set_mono (i : Inst) (r : Reason) (now : Tick) : Mono i (i.set r now) :=
-  ⟨fun _ hx => mem_set.mpr (Or.inl hx), fun w hw => by simp [set_when, hw], fun _ h => h, fun _ h => h, fun _ h => h⟩
+  ⟨fun _ hx => mem_set.mpr (Or.inl hx), fun w hw => by simp [set_when, hw], fun _ h => h, fun _ h => h, fun _ h => h, rfl⟩
 
 theorem step_mono {c : Cfg} {s s' : St} (h : Inv c s) (l : Label) (hs : step c s l = some s')
     {i i' : Inst} (hi : s.run = some i) (hi' : s'.run = some i') : Mono i i' := by
   cases l with
-  | tick d =>
-    simp only [step, Option.some.injEq] at hs; subst hs
-    simp only at hi'; rw [hi] at hi'; cases hi'; exact Mono.refl i
-  | cycle inp =>
-    simp only [step] at hs
-    split at hs
-    · cases hs; exact (cycle_spec h inp).2.2.2.2.2.1 i i' hi hi'
-    · cases hs
-  | exit =>
-    simp only [step, hi] at hs; cases hs; simp [endInst] at hi'
+  | tick d => have f := step_frame _ hs (Or.inl ⟨d, rfl⟩); rw [f.run, hi] at hi'; cases hi'; exact Mono.refl i
+  | pause => have f := step_frame _ hs (Or.inr (Or.inl rfl)); rw [f.run, hi] at hi'; cases hi'; exact Mono.refl i
+  | resume => have f := step_frame _ hs (Or.inr (Or.inr (Or.inl rfl))); rw [f.run, hi] at hi'; cases hi'; exact Mono.refl i
+  | kFinal => have f := step_frame _ hs (Or.inr (Or.inr (Or.inr rfl))); rw [f.run, hi] at hi'; cases hi'; exact Mono.refl i
+  | cycle inp => obtain ⟨h1, _⟩ := step_cycle hs; subst h1; exact (cycle_spec h inp).2.2.2.2.2.1 i i' hi hi'
+  | exit => obtain ⟨j, _, h1⟩ := step_exit hs; subst h1; simp [endInst] at hi'
   | kBegin r =>
-    simp only [step, hi] at hs
-    split at hs
-    · cases hs; simp at hi'; subst hi'
-      exact ⟨(set_mono i r s.now).reasons, (set_mono i r s.now).when, fun _ h => h, fun _ h => h,
-        fun st hst => List.mem_cons_of_mem _ hst⟩
-    · cases hs
+    obtain ⟨j, hj, _, _, _, _, h1⟩ := step_kBegin hs
+    subst h1; rw [hi] at hj; cases hj
+    simp at hi'; subst hi'
+    exact ⟨(set_mono i r s.now).reasons, (set_mono i r s.now).when, fun _ h => h, fun _ h => h,
+      fun st hst => List.mem_cons_of_mem _ hst, rfl⟩
   | kSignal st =>
-    simp only [step, hi] at hs
-    split at hs
-    · cases hs; simp at hi'; subst hi'; exact set_mono i _ _
-    · cases hs
+    obtain ⟨j, hj, _, h1⟩ := step_kSignal hs
+    subst h1; rw [hi] at hj; cases hj
+    simp at hi'; subst hi'; exact set_mono i _ _
   | kCancel st =>
-    simp only [step, hi] at hs
-    split at hs
-    · cases hs; simp at hi'; subst hi'
-      refine ⟨(set_mono i .cancelled s.now).reasons, (set_mono i .cancelled s.now).when, ?_, fun _ h => h, fun _ h => h⟩
-      intro t ht; simp [ht]
-    · cases hs
+    obtain ⟨j, hj, _, _, _, h1⟩ := step_kCancel hs
+    subst h1; rw [hi] at hj; cases hj
+    simp at hi'; subst hi'
+    refine ⟨(set_mono i .cancelled s.now).reasons, (set_mono i .cancelled s.now).when, ?_, fun _ h => h, fun _ h => h, rfl⟩
+    intro t ht; simp [ht]
   | kAbandon st =>
-    simp only [step, hi] at hs
-    split at hs
-    · cases hs; simp at hi'; subst hi'
-      refine ⟨(set_mono i .abandoned s.now).reasons, (set_mono i .abandoned s.now).when, fun _ h => h, ?_, fun _ h => h⟩
-      intro t ht; simp [ht]
-    · cases hs
+    obtain ⟨j, hj, _, _, h1⟩ := step_kAbandon hs
+    subst h1; rw [hi] at hj; cases hj
+    simp at hi'; subst hi'
+    refine ⟨(set_mono i .abandoned s.now).reasons, (set_mono i .abandoned s.now).when, fun _ h => h, ?_, fun _ h => h, rfl⟩
+    intro t ht; simp [ht]
 
 /-- a spawn happens in exactly one kind of step -/
 theorem step_spawns {c : Cfg} {s s' : St} (h : Inv c s) (l : Label) (hs : step c s l = some s') :
@@ -858,53 +1018,31 @@ theorem step_spawns {c : Cfg} {s s' : St} (h : Inv c s) (l : Label) (hs : step c
       | .cycle inp => if !inp.marked && inp.matching && !s.forever && s.run.isNone then 1 else 0
       | _ => 0) := by
   cases l with
-  | tick d => simp only [step, Option.some.injEq] at hs; subst hs; simp
-  | cycle inp =>
-    simp only [step] at hs
-    split at hs
-    · cases hs; exact (cycle_spec h inp).2.2.2.2.1
-    · cases hs
-  | exit =>
-    simp only [step] at hs
-    cases hrun : s.run with
-    | none => rw [hrun] at hs; cases hs
-    | some i => rw [hrun] at hs; cases hs; simp [endInst]
-  | kBegin r =>
-    simp only [step] at hs
-    cases hrun : s.run with
-    | none => rw [hrun] at hs; cases hs
-    | some i => rw [hrun] at hs; simp only at hs; split at hs <;> cases hs; simp
-  | kSignal st =>
-    simp only [step] at hs
-    cases hrun : s.run with
-    | none => rw [hrun] at hs; cases hs
-    | some i => rw [hrun] at hs; simp only at hs; split at hs <;> cases hs; simp
-  | kCancel st =>
-    simp only [step] at hs
-    cases hrun : s.run with
-    | none => rw [hrun] at hs; cases hs
-    | some i => rw [hrun] at hs; simp only at hs; split at hs <;> cases hs; simp
-  | kAbandon st =>
-    simp only [step] at hs
-    cases hrun : s.run with
-    | none => rw [hrun] at hs; cases hs
-    | some i => rw [hrun] at hs; simp only at hs; split at hs <;> cases hs; simp
+  | tick d => simp [(step_frame _ hs (Or.inl ⟨d, rfl⟩)).spawns]
+  | pause => simp [(step_frame _ hs (Or.inr (Or.inl rfl))).spawns]
+  | resume => simp [(step_frame _ hs (Or.inr (Or.inr (Or.inl rfl)))).spawns]
+  | kFinal => simp [(step_frame _ hs (Or.inr (Or.inr (Or.inr rfl)))).spawns]
+  | cycle inp => obtain ⟨h1, _⟩ := step_cycle hs; subst h1; exact (cycle_spec h inp).2.2.2.2.1
+  | exit => obtain ⟨j, _, h1⟩ := step_exit hs; subst h1; simp [endInst]
+  | kBegin r => obtain ⟨j, _, _, _, _, _, h1⟩ := step_kBegin hs; subst h1; simp
+  | kSignal st => obtain ⟨j, _, _, h1⟩ := step_kSignal hs; subst h1; simp
+  | kCancel st => obtain ⟨j, _, _, _, _, h1⟩ := step_kCancel hs; subst h1; simp
+  | kAbandon st => obtain ⟨j, _, _, _, h1⟩ := step_kAbandon hs; subst h1; simp
 
 theorem step_forever {c : Cfg} {s s' : St} (h : Inv c s) (l : Label) (hs : step c s l = some s')
     (hf : s.forever = true) : s'.forever = true := by
   have hn := h.fz hf
   cases l with
-  | tick d => simp only [step, Option.some.injEq] at hs; subst hs; exact hf
-  | cycle inp =>
-    simp only [step] at hs
-    split at hs
-    · cases hs; exact (cycle_spec h inp).2.2.1 hf
-    · cases hs
-  | exit => simp [step, hn] at hs
-  | kBegin r => simp [step, hn] at hs
-  | kSignal st => simp [step, hn] at hs
-  | kCancel st => simp [step, hn] at hs
-  | kAbandon st => simp [step, hn] at hs
+  | tick d => rw [(step_frame _ hs (Or.inl ⟨d, rfl⟩)).forever]; exact hf
+  | pause => rw [(step_frame _ hs (Or.inr (Or.inl rfl))).forever]; exact hf
+  | resume => rw [(step_frame _ hs (Or.inr (Or.inr (Or.inl rfl)))).forever]; exact hf
+  | kFinal => rw [(step_frame _ hs (Or.inr (Or.inr (Or.inr rfl)))).forever]; exact hf
+  | cycle inp => obtain ⟨h1, _⟩ := step_cycle hs; subst h1; exact (cycle_spec h inp).2.2.1 hf
+  | exit => obtain ⟨j, hj, _⟩ := step_exit hs; rw [hn] at hj; cases hj
+  | kBegin r => obtain ⟨j, hj, _⟩ := step_kBegin hs; rw [hn] at hj; cases hj
+  | kSignal st => obtain ⟨j, hj, _⟩ := step_kSignal hs; rw [hn] at hj; cases hj
+  | kCancel st => obtain ⟨j, hj, _⟩ := step_kCancel hs; rw [hn] at hj; cases hj
+  | kAbandon st => obtain ⟨j, hj, _⟩ := step_kAbandon hs; rw [hn] at hj; cases hj
 
 /-- Once in `forever_stopped`: no instance, and never a spawn again. -/
 theorem runs_forever {c : Cfg} : ∀ (ls : List Label) {s s' : St}, Inv c s → s.forever = true →
@@ -932,34 +1070,18 @@ theorem runs_forever {c : Cfg} : ∀ (ls : List Label) {s s' : St}, Inv c s → 
 
 theorem orphan_step {c : Cfg} {s s' : St} (ho : Orphan s) (l : Label) (hs : step c s l = some s') : Orphan s' := by
   obtain ⟨hk, hi⟩ := ho
+  have frame : Frame s s' → Orphan s' := fun f => ⟨by rw [f.known]; exact hk, fun i hi' => hi i (f.run ▸ hi')⟩
   cases l with
-  | tick d => simp only [step, Option.some.injEq] at hs; subst hs; exact ⟨hk, hi⟩
-  | cycle inp => simp [step, hk] at hs
-  | exit =>
-    simp only [step] at hs
-    cases hrun : s.run with
-    | none => rw [hrun] at hs; cases hs
-    | some i => rw [hrun] at hs; cases hs; exact ⟨hk, fun k hk' => by simp [endInst] at hk'⟩
-  | kBegin r =>
-    simp only [step] at hs
-    cases hrun : s.run with
-    | none => rw [hrun] at hs; cases hs
-    | some i => rw [hrun] at hs; simp [hk] at hs
-  | kSignal st =>
-    simp only [step] at hs
-    cases hrun : s.run with
-    | none => rw [hrun] at hs; cases hs
-    | some i => rw [hrun] at hs; simp [(hi i hrun).2] at hs
-  | kCancel st =>
-    simp only [step] at hs
-    cases hrun : s.run with
-    | none => rw [hrun] at hs; cases hs
-    | some i => rw [hrun] at hs; simp [(hi i hrun).2] at hs
-  | kAbandon st =>
-    simp only [step] at hs
-    cases hrun : s.run with
-    | none => rw [hrun] at hs; cases hs
-    | some i => rw [hrun] at hs; simp [(hi i hrun).2] at hs
+  | tick d => exact frame (step_frame _ hs (Or.inl ⟨d, rfl⟩))
+  | pause => exact frame (step_frame _ hs (Or.inr (Or.inl rfl)))
+  | resume => exact frame (step_frame _ hs (Or.inr (Or.inr (Or.inl rfl))))
+  | kFinal => exact frame (step_frame _ hs (Or.inr (Or.inr (Or.inr rfl))))
+  | cycle inp => obtain ⟨_, hkk⟩ := step_cycle hs; rw [hk] at hkk; cases hkk
+  | exit => obtain ⟨j, _, h1⟩ := step_exit hs; subst h1; exact ⟨hk, fun k hk' => by simp [endInst] at hk'⟩
+  | kBegin r => obtain ⟨j, _, hkk, _⟩ := step_kBegin hs; rw [hk] at hkk; cases hkk
+  | kSignal st => obtain ⟨j, hj, hst, _⟩ := step_kSignal hs; rw [(hi j hj).2] at hst; cases hst
+  | kCancel st => obtain ⟨j, hj, hst, _⟩ := step_kCancel hs; rw [(hi j hj).2] at hst; cases hst
+  | kAbandon st => obtain ⟨j, hj, hst, _⟩ := step_kAbandon hs; rw [(hi j hj).2] at hst; cases hst
 
 theorem orphan_runs {c : Cfg} : ∀ (ls : List Label) {s s' : St}, Orphan s → runs c s ls = some s' → Orphan s'
   | [], s, s', h, hr => by simp only [runs, Option.some.injEq] at hr; subst hr; exact h
@@ -968,368 +1090,5 @@ theorem orphan_runs {c : Cfg} : ∀ (ls : List Label) {s s' : St}, Orphan s → 
     cases hst : step c s l with
     | none => rw [hst] at hr; cases hr
     | some s1 => rw [hst] at hr; exact orphan_runs ls (orphan_step h l hst) hr
-
-end Kopf.C09
-
-namespace Kopf.C09
-
-/-! ### The re-sweep while paused -/
-
-theorem nextRound_bounds (p t : Tick) (_h : p ≤ t) : t ≤ nextRound p t ∧ nextRound p t < t + killerPeriod := by
-  unfold nextRound killerPeriod
-  unfold Tick at *
-  constructor <;> omega
-
-/-- From any state with a running instance whose memory is known — whatever is already in its stopper —
-    a round of the killer `d` ticks later starts `stop_daemon`, which cancels `backoff` later. -/
-theorem resweep_path {c : Cfg} {s : St} (h : Inv c s) {i : Inst} (hi : s.run = some i) (hk : s.known = true)
-    (ht : c.timeout.isSome = true) (hb : 0 ≤ c.b0) (d : Nat) :
-    ∃ s' i' tc, runs c s [.tick d, .kBegin .pausing, .tick c.b0.toNat, .kCancel (s.now + d)] = some s' ∧
-      s'.run = some i' ∧ i'.cancelAt = some tc ∧ tc ≤ s.now + d + c.b0 ∧ Reason.pausing ∈ i'.reasons ∧
-      Reason.cancelled ∈ i'.reasons := by
-  have hb' : ((c.b0.toNat : Nat) : Int) = c.b0 := Int.toNat_of_nonneg hb
-  have hcanc : ∀ t, i.cancelAt = some t → t ≤ s.now := fun t ht' => by
-    obtain ⟨_, _, _, h3⟩ := (h.inst i hi).canc t ht'
-    exact h3
-  let r : Tick := s.now + d
-  let i1 : Inst := { i.set .pausing r with kstarts := r :: i.kstarts }
-  let i2 : Inst := { i1.set .cancelled (r + c.b0) with cancelAt := some (i1.cancelAt.getD (r + c.b0)) }
-  let s' : St := { s with now := r + c.b0, run := some i2, known := true }
-  refine ⟨s', i2, i.cancelAt.getD (r + c.b0), ?_, rfl, rfl, ?_, ?_, ?_⟩
-  · simp only [runs, step, hi, hk, Bool.true_and]
-    simp only [beq_self_eq_true, Bool.true_or, if_true, hb']
-    have hg : (r ∈ i1.kstarts ∧ c.timeout.isSome = true ∧ r + c.b0 ≤ r + c.b0) := ⟨by simp [i1], ht, Int.le_refl _⟩
-    simp only [r, i1] at hg
-    simp only [hg, and_self, if_true]
-    rfl
-  · cases hc : i.cancelAt with
-    | none => simp [r]
-    | some t =>
-      simp only [Option.getD_some]
-      have := hcanc t hc
-      have hd : (0 : Int) ≤ (d : Int) := Int.natCast_nonneg d
-      unfold Tick at *
-      omega
-  · exact (mem_set (i := i1) (r := .cancelled) (now := r + c.b0)).mpr (Or.inl ((mem_set (i := i) (r := .pausing) (now := r)).mpr (Or.inr rfl)))
-  · exact (mem_set (i := i1) (r := .cancelled) (now := r + c.b0)).mpr (Or.inr rfl)
-
-end Kopf.C09
-
-namespace Kopf.C09
-
-/-! ### Frame facts of single steps, and the killer's duty -/
-
-theorem step_now {c : Cfg} {s s' : St} (h : Inv c s) (l : Label) (hs : step c s l = some s') :
-    s'.now = s.now + (match l with | .tick d => (d : Int) | _ => 0) := by
-  cases l with
-  | tick d => simp only [step, Option.some.injEq] at hs; subst hs; rfl
-  | cycle inp =>
-    simp only [step] at hs
-    split at hs
-    · cases hs; simpa using (cycle_spec h inp).2.1
-    · cases hs
-  | exit =>
-    simp only [step] at hs
-    cases hrun : s.run with
-    | none => rw [hrun] at hs; cases hs
-    | some i => rw [hrun] at hs; cases hs; simp [endInst]
-  | kBegin r =>
-    simp only [step] at hs
-    cases hrun : s.run with
-    | none => rw [hrun] at hs; cases hs
-    | some i => rw [hrun] at hs; simp only at hs; split at hs <;> cases hs; simp
-  | kSignal st =>
-    simp only [step] at hs
-    cases hrun : s.run with
-    | none => rw [hrun] at hs; cases hs
-    | some i => rw [hrun] at hs; simp only at hs; split at hs <;> cases hs; simp
-  | kCancel st =>
-    simp only [step] at hs
-    cases hrun : s.run with
-    | none => rw [hrun] at hs; cases hs
-    | some i => rw [hrun] at hs; simp only at hs; split at hs <;> cases hs; simp
-  | kAbandon st =>
-    simp only [step] at hs
-    cases hrun : s.run with
-    | none => rw [hrun] at hs; cases hs
-    | some i => rw [hrun] at hs; simp only at hs; split at hs <;> cases hs; simp
-
-theorem step_known {c : Cfg} {s s' : St} (_h : Inv c s) (l : Label) (hs : step c s l = some s')
-    (hk : s'.known = true) : s.known = true := by
-  cases l with
-  | tick d => simp only [step, Option.some.injEq] at hs; subst hs; exact hk
-  | cycle inp =>
-    simp only [step] at hs
-    split at hs
-    · rename_i hkk; exact hkk
-    · cases hs
-  | exit =>
-    simp only [step] at hs
-    cases hrun : s.run with
-    | none => rw [hrun] at hs; cases hs
-    | some i => rw [hrun] at hs; cases hs; simpa [endInst] using hk
-  | kBegin r =>
-    simp only [step] at hs
-    cases hrun : s.run with
-    | none => rw [hrun] at hs; cases hs
-    | some i => rw [hrun] at hs; simp only at hs; split at hs <;> cases hs; simpa using hk
-  | kSignal st =>
-    simp only [step] at hs
-    cases hrun : s.run with
-    | none => rw [hrun] at hs; cases hs
-    | some i => rw [hrun] at hs; simp only at hs; split at hs <;> cases hs; simpa using hk
-  | kCancel st =>
-    simp only [step] at hs
-    cases hrun : s.run with
-    | none => rw [hrun] at hs; cases hs
-    | some i => rw [hrun] at hs; simp only at hs; split at hs <;> cases hs; simpa using hk
-  | kAbandon st =>
-    simp only [step] at hs
-    cases hrun : s.run with
-    | none => rw [hrun] at hs; cases hs
-    | some i => rw [hrun] at hs; simp only at hs; split at hs <;> cases hs; simpa using hk
-
-theorem step_spawns_le {c : Cfg} {s s' : St} (h : Inv c s) (l : Label) (hs : step c s l = some s') :
-    s.spawns ≤ s'.spawns := by
-  rw [step_spawns h l hs]; omega
-
-theorem cycle_run_none (c : Cfg) (inp : CycIn) (s : St) (hn : s.run = none)
-    (hc : (!inp.marked && inp.matching && !s.forever) = false) : (cycle c inp s).1.run = none := by
-  unfold cycle stopIf
-  cases hd : inp.deleted <;> cases hm : inp.marked <;> cases hma : inp.matching <;> cases hf : s.forever <;>
-    simp_all
-
-/-- no instance and no spawn in this step: still no instance -/
-theorem step_run_none {c : Cfg} {s s' : St} (h : Inv c s) (l : Label) (hs : step c s l = some s')
-    (hn : s.run = none) (hsp : s'.spawns = s.spawns) : s'.run = none := by
-  cases l with
-  | tick d => simp only [step, Option.some.injEq] at hs; subst hs; exact hn
-  | cycle inp =>
-    have hsp' := step_spawns h (.cycle inp) hs
-    simp only [hn, Option.isNone_none, Bool.and_true] at hsp'
-    simp only [step] at hs
-    split at hs
-    · cases hs
-      apply cycle_run_none c inp s hn
-      by_cases hc : (!inp.marked && inp.matching && !s.forever) = true
-      · simp only [hc, if_true] at hsp'; omega
-      · simpa using hc
-    · cases hs
-  | exit => simp [step, hn] at hs
-  | kBegin r => simp [step, hn] at hs
-  | kSignal st => simp [step, hn] at hs
-  | kCancel st => simp [step, hn] at hs
-  | kAbandon st => simp [step, hn] at hs
-
-/-- the instance of the start state is out of the killer's reach or gone for good (w.r.t. the final
-    claim "the same instance still runs and its memory is known") -/
-def Lost (sp0 : Nat) (s : St) : Prop := s.known = false ∨ s.run = none ∨ sp0 < s.spawns
-
-theorem lost_step {c : Cfg} {sp0 : Nat} {s s' : St} (h : Inv c s) (l : Label) (hs : step c s l = some s')
-    (hsp : sp0 ≤ s.spawns) (hl : Lost sp0 s) : Lost sp0 s' := by
-  have hle := step_spawns_le h l hs
-  rcases hl with hk | hn | hlt
-  · left
-    cases hk' : s'.known with
-    | false => rfl
-    | true => have := step_known h l hs hk'; rw [hk] at this; cases this
-  · by_cases he : s'.spawns = s.spawns
-    · right; left; exact step_run_none h l hs hn he
-    · right; right; omega
-  · right; right; omega
-
-/-- what each stage of the duty has established for the instance that is still the original one -/
-def DutyInv (c : Cfg) (r : Tick) (sp0 : Nat) : Duty → St → Prop
-  | .waiting, s => Lost sp0 s ∨ s.now ≤ r
-  | .begun, s => Lost sp0 s ∨ (s.now ≤ r + c.b0 ∧ ∀ i, s.run = some i → r ∈ i.kstarts)
-  | .served, s => Lost sp0 s ∨ ∀ i, s.run = some i → ∃ tc, i.cancelAt = some tc ∧ tc ≤ r + c.b0
-
-theorem step_now_other {c : Cfg} {s s' : St} (h : Inv c s) (l : Label) (hs : step c s l = some s')
-    (hl : ∀ n, l ≠ .tick n) : s'.now = s.now := by
-  have := step_now h l hs
-  cases l with
-  | tick n => exact absurd rfl (hl n)
-  | _ => simpa using this
-
-theorem duty_step {c : Cfg} {r : Tick} {sp0 : Nat} {s s' : St} (h : Inv c s) (hb : 0 ≤ c.b0) (d : Duty) (l : Label)
-    (hs : step c s l = some s') (hsp : sp0 ≤ s.spawns)
-    (hduty : d.allows c r s l)
-    (hinv : DutyInv c r sp0 d s) : DutyInv c r sp0 (d.next r s l) s' := by
-  have hlost : Lost sp0 s → Lost sp0 s' := lost_step h l hs hsp
-  have hmono : ∀ i i', s.run = some i → s'.run = some i' → Mono i i' := fun i i' hi hi' => step_mono h l hs hi hi'
-  have hsame : ∀ i', s'.run = some i' → Lost sp0 s' ∨ ∃ i, s.run = some i := by
-    intro i' hi'
-    cases hrun : s.run with
-    | some i => exact Or.inr ⟨i, rfl⟩
-    | none => exact Or.inl (hlost (Or.inr (Or.inl hrun)))
-  unfold Duty.next
-  by_cases hA : d = .waiting ∧ l = .kBegin .pausing ∧ s.now = r
-  · -- the round at `r` starts `stop_daemon` for this daemon
-    rw [if_pos hA]
-    obtain ⟨hd, hl, hr⟩ := hA
-    subst hd; subst hl
-    have hnow := step_now_other h _ hs (by intro n hn; cases hn)
-    by_cases hL : Lost sp0 s'
-    · exact Or.inl hL
-    · right
-      refine ⟨by rw [hnow, hr]; unfold Tick at *; omega, ?_⟩
-      intro i' hi'
-      simp only [step] at hs
-      cases hrun : s.run with
-      | none => rw [hrun] at hs; cases hs
-      | some i =>
-        rw [hrun] at hs
-        simp only at hs
-        split at hs
-        · cases hs
-          simp only [Option.some.injEq] at hi'
-          subst hi'
-          simp [hr]
-        · cases hs
-  · rw [if_neg hA]
-    by_cases hB : d = .begun ∧ l = .kCancel r
-    · -- the cancellation stage of the coroutine started at `r`
-      rw [if_pos hB]
-      obtain ⟨hd, hl⟩ := hB
-      subst hd; subst hl
-      rcases hinv with hl | ⟨hle, _⟩
-      · exact Or.inl (hlost hl)
-      · right
-        intro i' hi'
-        simp only [step] at hs
-        cases hrun : s.run with
-        | none => rw [hrun] at hs; cases hs
-        | some i =>
-          rw [hrun] at hs
-          simp only at hs
-          split at hs
-          · cases hs
-            simp only [Option.some.injEq] at hi'
-            subst hi'
-            refine ⟨i.cancelAt.getD s.now, rfl, ?_⟩
-            cases hca : i.cancelAt with
-            | none => simpa using hle
-            | some t =>
-              obtain ⟨_, _, _, h3⟩ := (h.inst i hrun).canc t hca
-              simp only [Option.getD_some]
-              exact Int.le_trans h3 hle
-          · cases hs
-    · rw [if_neg hB]
-      -- the duty stage does not change: its invariant is kept by any step
-      cases d with
-      | waiting =>
-        rcases hinv with hl | hle
-        · exact Or.inl (hlost hl)
-        · cases l with
-          | tick n =>
-            have hnow := step_now h _ hs
-            simp only [Duty.allows] at hduty
-            simp only at hnow
-            rcases hduty with h1 | h2 | h3
-            · right; rw [hnow]; exact h1
-            · exact Or.inl (hlost (Or.inl h2))
-            · exact Or.inl (hlost (Or.inr (Or.inl h3)))
-          | cycle inp => right; rw [step_now_other h _ hs (by intro n hn; cases hn)]; exact hle
-          | exit => right; rw [step_now_other h _ hs (by intro n hn; cases hn)]; exact hle
-          | kBegin rr => right; rw [step_now_other h _ hs (by intro n hn; cases hn)]; exact hle
-          | kSignal st => right; rw [step_now_other h _ hs (by intro n hn; cases hn)]; exact hle
-          | kCancel st => right; rw [step_now_other h _ hs (by intro n hn; cases hn)]; exact hle
-          | kAbandon st => right; rw [step_now_other h _ hs (by intro n hn; cases hn)]; exact hle
-      | begun =>
-        rcases hinv with hl | ⟨hle, hks⟩
-        · exact Or.inl (hlost hl)
-        · have keep : s'.now ≤ r + c.b0 → DutyInv c r sp0 Duty.begun s' := by
-            intro hn
-            by_cases hL : Lost sp0 s'
-            · exact Or.inl hL
-            · right
-              refine ⟨hn, fun i' hi' => ?_⟩
-              rcases hsame i' hi' with hl | ⟨i, hi⟩
-              · exact absurd hl hL
-              · exact (hmono i i' hi hi').ks r (hks i hi)
-          cases l with
-          | tick n =>
-            have hnow := step_now h _ hs
-            simp only [Duty.allows] at hduty
-            simp only at hnow
-            rcases hduty with h1 | h3
-            · exact keep (by rw [hnow]; exact h1)
-            · exact Or.inl (hlost (Or.inr (Or.inl h3)))
-          | cycle inp => exact keep (by rw [step_now_other h _ hs (by intro n hn; cases hn)]; exact hle)
-          | exit => exact keep (by rw [step_now_other h _ hs (by intro n hn; cases hn)]; exact hle)
-          | kBegin rr => exact keep (by rw [step_now_other h _ hs (by intro n hn; cases hn)]; exact hle)
-          | kSignal st => exact keep (by rw [step_now_other h _ hs (by intro n hn; cases hn)]; exact hle)
-          | kCancel st => exact keep (by rw [step_now_other h _ hs (by intro n hn; cases hn)]; exact hle)
-          | kAbandon st => exact keep (by rw [step_now_other h _ hs (by intro n hn; cases hn)]; exact hle)
-      | served =>
-        rcases hinv with hl | hc
-        · exact Or.inl (hlost hl)
-        · by_cases hL : Lost sp0 s'
-          · exact Or.inl hL
-          · right
-            intro i' hi'
-            rcases hsame i' hi' with hl | ⟨i, hi⟩
-            · exact absurd hl hL
-            · obtain ⟨tc, h1, h2⟩ := hc i hi
-              exact ⟨tc, (hmono i i' hi hi').canc tc h1, h2⟩
-
-/-- Along every dutiful run: if at the end the clock is past `r + backoff`, the memory is still known and
-    the instance of the start state is still the running one, its task has been cancelled by `r + backoff`. -/
-theorem dutiful_runs {c : Cfg} {r : Tick} (hb : 0 ≤ c.b0) :
-    ∀ (ls : List Label) (d : Duty) (s s' : St) (sp0 : Nat), Inv c s → sp0 ≤ s.spawns → DutyInv c r sp0 d s →
-      Dutiful c r d s ls → runs c s ls = some s' →
-      ∃ d', DutyInv c r sp0 d' s' ∧ sp0 ≤ s'.spawns
-  | [], d, s, s', sp0, _, hsp, hinv, _, hr => by
-    simp only [runs, Option.some.injEq] at hr; subst hr; exact ⟨d, hinv, hsp⟩
-  | l :: ls, d, s, s', sp0, h, hsp, hinv, hdut, hr => by
-    simp only [runs] at hr
-    cases hst : step c s l with
-    | none => rw [hst] at hr; cases hr
-    | some s1 =>
-      rw [hst] at hr
-      simp only [Dutiful, hst] at hdut
-      have h1 := step_inv h l hst
-      have hinv1 := duty_step (r := r) (sp0 := sp0) h hb d l hst hsp hdut.1 hinv
-      exact dutiful_runs hb ls _ s1 s' sp0 h1 (Nat.le_trans hsp (step_spawns_le h l hst)) hinv1 hdut.2 hr
-
-/-! ### `Dutiful` is decidable on concrete runs (for the non-vacuity examples) -/
-
-instance (c : Cfg) (r : Tick) (d : Duty) (s : St) (l : Label) : Decidable (d.allows c r s l) := by
-  cases l <;> cases d <;> simp only [Duty.allows] <;> infer_instance
-
-instance Dutiful.decidable (c : Cfg) (r : Tick) : ∀ (d : Duty) (s : St) (ls : List Label), Decidable (Dutiful c r d s ls)
-  | _, _, [] => isTrue trivial
-  | d, s, l :: ls =>
-    match h : step c s l with
-    | some s' =>
-      have := Dutiful.decidable c r (d.next r s l) s' ls
-      decidable_of_iff (d.allows c r s l ∧ Dutiful c r (d.next r s l) s' ls) (by simp [Dutiful, h])
-    | none => decidable_of_iff (d.allows c r s l) (by simp [Dutiful, h])
-
-/-! ### Tie-side and enabledness facts (not property theorems) -/
-
-/-- the model's sweep does not look at the stopper (content: `Tie.sweep_unconditional` over the AST) -/
-theorem sweep_is_unconditional (i : Inst) : sweepSpawns i = true := rfl
-
-/-- iterating a snapshot visits the snapshot, whatever happens to the dict (content:
-    `Tie.killer_iterates_snapshots` over the AST) -/
-theorem killer_sweep_visits_all {α : Type} (snapshot : List α) (sizes : List Nat) :
-    iterSnapshot snapshot sizes [] = (.finished, snapshot) := by
-  have h : ∀ (xs : List α) (szs : List Nat) (acc : List α),
-      iterSnapshot xs szs acc = (.finished, acc.reverse ++ xs) := by
-    intro xs
-    induction xs with
-    | nil => intro szs acc; simp [iterSnapshot]
-    | cons x xs ih =>
-      intro szs acc
-      cases szs with
-      | nil => simp [iterSnapshot, ih]
-      | cons z zs => simp [iterSnapshot, ih]
-  simpa using h snapshot sizes []
-
-/-- the killer's `stop_daemon` is enabled for every running instance of a known memory (restates the guard) -/
-theorem killer_begin_enabled (c : Cfg) (s : St) (i : Inst) (r : Reason) (hi : s.run = some i) (hk : s.known = true)
-    (hr : r = .pausing ∨ r = .exiting) : ∃ s', step c s (.kBegin r) = some s' := by
-  rcases hr with hr | hr <;> subst hr <;> simp [step, hi, hk]
 
 end Kopf.C09
